@@ -131,7 +131,7 @@ def reset_bucket(T, now: float) -> dict:
     return {"FILL_RATE": cells["FILL_RATE"].cell_contents, "BUCKET_CAPACITY": cells["BUCKET_CAPACITY"].cell_contents}
 
 
-async def port_episode(loop, pattern, rnd) -> dict:
+async def port_episode(loop, pattern, rnd, cancels=None) -> dict:
     import ramses_tx.transport as T
     from ramses_tx.protocol import protocol_factory
 
@@ -166,6 +166,17 @@ async def port_episode(loop, pattern, rnd) -> dict:
 
     for i, (off, _) in enumerate(pattern):
         loop.call_at(t0 + off / 1e6, start, i)
+    cancelled: list = []
+
+    def cancel(i: int) -> None:
+        # (a caller's send timeout: the task that offered frame i is cancelled, wherever in the write path it is waiting)
+        k = next((k for k, (_t, j) in enumerate(offers) if j == i), None)
+        if k is not None and not tasks[k].done():
+            tasks[k].cancel()
+            cancelled.append((loop.time(), i))
+
+    for i, off in (cancels or {}).items():
+        loop.call_at(t0 + off / 1e6, cancel, i)
     total_bits = sum(bits_of(f) for f in frames)
     horizon = pattern[-1][0] / 1e6 + total_bits / P_RATE + len(pattern) * P_GAP * 2 + 10.0
     await asyncio.sleep(horizon)
@@ -175,8 +186,50 @@ async def port_episode(loop, pattern, rnd) -> dict:
     tr.close()
     os.close(master)
     await asyncio.sleep(0)
-    return {"t0": t0, "offers": offers, "writes": writes, "semlog": semlog, "frames": frames, "errors": errors,
+    return {"t0": t0, "offers": offers, "writes": writes, "semlog": semlog, "frames": frames, "errors": errors, "cancelled": cancelled,
             "unfinished": len(pending), "consts": consts, "loop_errors": list(loop.errors)}
+
+
+def run_port_cancel(chk: Check, rnd) -> None:
+    """A caller gives up (its task is cancelled) while its frame waits for the duty-cycle allowance, with others waiting behind it and
+    more frames offered afterwards: the frames that are written are written once, unaltered, and in the order they were offered."""
+    n_back = rnd.choice((80, 90, 100))              # a backlog that puts the bucket in debt
+    pattern = [(1000 * k, 48) for k in range(n_back)]
+    tA = 1000 * n_back + rnd.choice((1000, 200000))
+    a = len(pattern)
+    pattern += [(tA, 48), (tA + 1000, rnd.choice((24, 48))), (tA + 2000, 48)]
+    t_cancel = tA + rnd.choice((300000, 900000, 2500000))
+    pattern += [(t_cancel + rnd.choice((1000, 100000, 400000)), rnd.choice((1, 4, 8))), (t_cancel + 600000, 1)]
+    cancels = {a: t_cancel}
+    if rnd.random() < 0.4:
+        cancels[a + 2] = t_cancel + 50000
+
+    async def body(loop):
+        return await port_episode(loop, pattern, rnd, cancels)
+
+    res, _ = vloop.run(body)
+    chk.evaluations += 1
+    chk.nontrivial.add(("port-cancel", tuple(pattern), tuple(sorted(cancels.items()))))
+    chk.count("port.cancel_episodes")
+    rep = {"op": "port.cancel", "pattern": pattern, "cancels": cancels}
+    frames = res["frames"]
+    offered = [(frames[i] + "\r\n").encode() for _, i in res["offers"]]
+    got = [d for _, d in res["writes"]]
+    if len(set(got)) < len(got):
+        chk.violation("c11.port.cancel.duplicate", "a frame was written more than once", rep)
+        return
+    if any(g not in offered for g in got):
+        chk.violation("c11.port.cancel.altered", "something was written that was not offered", rep)
+        return
+    pos = [offered.index(g) for g in got]
+    if pos != sorted(pos):
+        k = next(i for i in range(1, len(pos)) if pos[i] < pos[i - 1])
+        chk.violation("c11.port.cancel.reorder", f"after a waiting caller was cancelled, frame #{pos[k - 1]} (offered at {res['offers'][pos[k - 1]][0] - res['t0']:.3f}) was written "
+                      f"before frame #{pos[k]} (offered earlier, at {res['offers'][pos[k]][0] - res['t0']:.3f})", rep)
+    gone = {(frames[i] + "\r\n").encode() for _t, i in res["cancelled"]}
+    missing = [o for o in offered if o not in got and o not in gone]
+    if missing:
+        chk.violation("c11.port.cancel.lost", f"{len(missing)} frame(s) whose caller did not give up were never written", rep)
 
 
 def score_port(chk: Check, D: Diff, pattern, res, consts_model) -> None:
@@ -621,6 +674,8 @@ def run(chk: Check) -> None:
         run_port(chk, D, pat, rnd, consts)
     for _ in range(n_port):
         run_port(chk, D, gen_pattern(rnd, thorough), rnd, consts)
+    for _ in range(6 if not thorough else 40):
+        run_port_cancel(chk, rnd)
     for k in range(n_mqtt):
         pat = gen_pattern(rnd, thorough)
         if k % 6 == 0:
